@@ -125,7 +125,7 @@ MUTANTS = {
         ("compact-dict-keys-too", "tatsu/packetz/compact.py", "        return {k: compact_value(v) for k, v in data.items()}", "        return {rle_encode(k): compact_value(v) for k, v in data.items()}", "caught"),
         # negative controls
         ("NC-told-min", "tatsu/packetz/queue.py", "self._told = max(q.tell(), self._told)", "self._told = min(q.tell(), self._told)", "quiet"),
-        ("NC-no-seen-dedupe", "tatsu/packetz/queue.py", "                if packet.id not in self._seen:\n                    self._seen.add(packet.id)\n                    yield packet", "                if True:\n                    yield packet", "quiet"),
+        ("no-seen-dedupe", "tatsu/packetz/queue.py", "                if packet.id not in self._seen:\n                    self._seen.add(packet.id)\n                    yield packet", "                if True:\n                    yield packet", "caught"),
         ("NC-bigger-read-buffer", "tatsu/packetz/queue.py", 'with self.path.open("rb", buffering=1024 * 256) as q:', 'with self.path.open("rb", buffering=1024 * 1024) as q:', "quiet"),
     ],
     "C18": [
